@@ -38,8 +38,6 @@ def combine(run, f):
             if isinstance(st, ast.Assign) and isinstance(st.value, ast.Call) and norm(st.value.func).endswith('nonzero') \
                     and st.value.args and norm(st.value.args[0]) == sel and isinstance(st.targets[0], ast.Tuple):
                 rows_v, cols_v = [norm(e) for e in st.targets[0].elts]
-                d_t = [norm(d[0].value) for d in defs_of(f.node, t_idx)] if t_idx.isidentifier() else []
-                d_o = [norm(d[0].value) for d in defs_of(f.node, o_idx)] if o_idx and o_idx.isidentifier() else []
                 # row_ind, column_ind = C_rows[i], C_columns[i]
                 for st2, _ in walk(f.node):
                     if isinstance(st2, ast.Assign) and isinstance(st2.targets[0], ast.Tuple) \
@@ -49,6 +47,16 @@ def combine(run, f):
                             ok = True
                         elif t_idx in m and o_idx in m:
                             run.violation('R7.select', f, st2, 'output index must come from the nonzero rows of the '
+                                          'selector and input index from its columns')
+                            ok = None
+                    # for row_ind, column_ind in zip(C_rows, C_columns): the same pairing written as a zip loop
+                    if isinstance(st2, ast.For) and isinstance(st2.target, ast.Tuple) and isinstance(st2.iter, ast.Call) \
+                            and norm(st2.iter.func) == 'zip' and len(st2.iter.args) == len(st2.target.elts) == 2:
+                        m = dict(zip([norm(e) for e in st2.target.elts], [norm(e) for e in st2.iter.args]))
+                        if m.get(t_idx) == rows_v and m.get(o_idx) == cols_v:
+                            ok = True
+                        elif t_idx in m and o_idx in m:
+                            run.violation('R7.select', f, st2.iter, 'output index must come from the nonzero rows of the '
                                           'selector and input index from its columns')
                             ok = None
         if ok is True:
